@@ -92,6 +92,18 @@ pub enum CStep {
         s: u8,
         ok: bool,
     },
+    /// node x stops syncing the lane's document (only carried out while nothing of that node and
+    /// document is in flight) / starts syncing it again
+    Leave {
+        #[serde(default)]
+        l: u8,
+        x: u8,
+    },
+    Rejoin {
+        #[serde(default)]
+        l: u8,
+        x: u8,
+    },
     /// node x is asked to start syncing a document its store does not hold (the request fails;
     /// the document must not count as synced afterwards)
     StartSyncUnknown {
@@ -164,6 +176,8 @@ struct Dial {
     peer_open: Vec<usize>,
     /// the callee was still busy with an accepted session of the caller when this was delivered
     callee_accepting: bool,
+    /// the callee was syncing the document when the request was delivered
+    callee_synced: bool,
 }
 
 #[derive(Default)]
@@ -289,7 +303,11 @@ impl Scenario for Coord {
                 21 => CStep::LoseAbort { l, d: rng.below(4) as u8 },
                 22..=24 => CStep::FinishDialSide { l, s: rng.below(4) as u8, ok: rng.chance(2, 3) },
                 25..=27 => CStep::FinishAcceptSide { l, s: rng.below(4) as u8, ok: rng.chance(2, 3) },
-                28 => CStep::StartSyncUnknown { l, x },
+                28 => match rng.below(3) {
+                    0 => CStep::StartSyncUnknown { l, x },
+                    1 => CStep::Leave { l, x },
+                    _ => CStep::Rejoin { l, x },
+                },
                 _ => CStep::UnknownDocRequest { l, x, held: rng.chance(1, 2) },
             };
             steps.push(s);
@@ -374,6 +392,9 @@ async fn run(plan: &CoordPlan, cx: &mut Cx) -> Res {
     cx.ev("ids", format!("docs={ndocs} nodes={nn} id-order={order:?}"));
 
     let mut dials: Vec<Dial> = Vec::new();
+    // which node currently syncs which of the documents (index into `synced` docs)
+    let mut syncing: Vec<Vec<bool>> = vec![vec![true; ndocs]; nn];
+    let doc_of = |l: usize| (0..ndocs).position(|d| synced[d].id() == lanes[l].ns).unwrap_or(0);
     let outcomes: Rc<RefCell<Vec<(usize, AcceptOutcome)>>> = Rc::new(RefCell::new(Vec::new()));
     let mut step_no = 0usize;
     // per lane and side: (epoch, armed_epoch) for the resync oracle
@@ -414,7 +435,7 @@ async fn run(plan: &CoordPlan, cx: &mut Cx) -> Res {
                 let to = lanes[l].n[1 - side];
                 new_by[l][side].push(reason);
                 cx.ev("dial", format!("L{l} n{from}->n{to} {reason:?}"));
-                dials.push(Dial { id: dials.len(), lane: l, from, to, reason, resolve: Some(resolve), delivered: false, outcome: None, accept_fin: None, dial_done: false, accept_done: false, born_step: step_no, peer_open: vec![], callee_accepting: false });
+                dials.push(Dial { id: dials.len(), lane: l, from, to, reason, resolve: Some(resolve), delivered: false, outcome: None, accept_fin: None, dial_done: false, accept_done: false, born_step: step_no, peer_open: vec![], callee_accepting: false, callee_synced: true });
             }
             // record answers
             for (id, o) in outcomes.borrow_mut().drain(..) {
@@ -515,7 +536,33 @@ async fn run(plan: &CoordPlan, cx: &mut Cx) -> Res {
     let mut all_steps: Vec<CStep> = plan.steps.clone();
     let mut cleanup_round = 0u32;
     let mut idx = 0usize;
+    let mut rejoined_all = false;
     loop {
+        if idx >= all_steps.len() && !rejoined_all {
+            // every node syncs every document again before leftovers are resolved and readiness is
+            // probed (starting to sync dials the peers remembered as useful: those dials are
+            // resolved like any other)
+            rejoined_all = true;
+            let mut any = false;
+            for node in 0..nn {
+                for d in 0..ndocs {
+                    if !syncing[node][d] {
+                        let (reply, rx) = oneshot::channel();
+                        send!(node, ToLiveActor::StartSync { namespace: synced[d].id(), peers: vec![], reply });
+                        let r = rx.await.map_err(|_| Violation::new("actor-stopped/live", "no answer to a start-sync request".to_string()))?;
+                        if let Err(e) = r {
+                            return Err(harness(format!("rejoin failed: {e:#}")));
+                        }
+                        syncing[node][d] = true;
+                        any = true;
+                    }
+                }
+            }
+            if any {
+                let _ = after_step!("rejoin before cleanup");
+            }
+            continue;
+        }
         if idx >= all_steps.len() {
             // cleanup: resolve every leftover, one per iteration, until nothing is in flight
             let bit = |k: usize| (plan.cleanup >> (k % 16)) & 1 == 1;
@@ -548,6 +595,44 @@ async fn run(plan: &CoordPlan, cx: &mut Cx) -> Res {
             CStep::NeighborUp { l, x } => {
                 let (l, x) = (*l as usize % nl, *x as usize % 2);
                 send!(lanes[l].n[x], ToLiveActor::NeighborUp { namespace: lanes[l].ns, peer: nodes[lanes[l].n[1 - x]].id });
+            }
+            CStep::Leave { l, x } | CStep::Rejoin { l, x } => {
+                let (l, x) = (*l as usize % nl, *x as usize % 2);
+                let node = lanes[l].n[x];
+                let d = doc_of(l);
+                let leave = matches!(step, CStep::Leave { .. });
+                if leave == !syncing[node][d] {
+                    continue;
+                }
+                // leaving drops the per-peer state of the document; it is only carried out while no
+                // request, reply or session of this node and document is in flight
+                let busy = dials.iter().any(|e| lanes[e.lane].ns == lanes[l].ns && (e.from == node || e.to == node) && (!e.dial_done || (matches!(e.outcome, Some(AcceptOutcome::Allow)) && !e.accept_done) || (!e.delivered)));
+                if leave && busy {
+                    continue;
+                }
+                let (reply, rx) = oneshot::channel();
+                if leave {
+                    send!(node, ToLiveActor::Leave { namespace: lanes[l].ns, kill_subscribers: false, reply });
+                } else {
+                    send!(node, ToLiveActor::StartSync { namespace: lanes[l].ns, peers: vec![], reply });
+                }
+                let r = rx.await.map_err(|_| Violation::new("actor-stopped/live", "no answer to a leave / start-sync request".to_string()))?;
+                if let Err(e) = r {
+                    return Err(harness(format!("leave / rejoin failed: {e:#}")));
+                }
+                syncing[node][d] = !leave;
+                for (li, lane) in lanes.iter().enumerate() {
+                    if lane.ns == lanes[l].ns {
+                        for side in 0..2 {
+                            if lane.n[side] == node {
+                                resync_armed[li][side] = None;
+                                was_running[li][side] = false;
+                            }
+                        }
+                    }
+                }
+                cx.probe(if leave { "left_a_document" } else { "rejoined_a_document" });
+                cx.ev(if leave { "leave" } else { "rejoin" }, format!("n{node} d{d}"));
             }
             CStep::StartSyncUnknown { l, x } => {
                 let (l, x) = (*l as usize % nl, *x as usize % 2);
@@ -582,12 +667,21 @@ async fn run(plan: &CoordPlan, cx: &mut Cx) -> Res {
                 let (from, to) = (dials[id].from, dials[id].to);
                 dials[id].peer_open = dials.iter().filter(|e| e.lane == l && e.from != from && !e.dial_done).map(|e| e.id).collect();
                 dials[id].callee_accepting = dials.iter().any(|e| e.lane == l && e.from == from && matches!(e.outcome, Some(AcceptOutcome::Allow)) && !e.accept_done);
+                dials[id].callee_synced = syncing[to][doc_of(l)];
                 let (msg, orx, id2) = deliver(&mut dials[id], &nodes[to], nodes[from].id, lanes[l].ns);
                 answer_rx.push((id2, orx));
                 send!(to, msg);
                 // the callee answers within this step
                 barrier().await;
                 poll_answers!();
+                if !syncing[to][doc_of(l)] {
+                    cx.probe("request_for_a_document_the_callee_has_left");
+                    if let Some((_, o)) = outcomes.borrow().last() {
+                        if !matches!(o, AcceptOutcome::Reject(AbortReason::NotFound)) {
+                            return Err(Violation::new("notfound/answer", format!("a request for a document the callee has stopped syncing was answered with {o:?}")));
+                        }
+                    }
+                }
                 // a callee that allows starts a new session epoch
                 if let Some((_, AcceptOutcome::Allow)) = outcomes.borrow().last() {
                     let side = if lanes[l].n[0] == to { 0 } else { 1 };
@@ -685,7 +779,7 @@ async fn run(plan: &CoordPlan, cx: &mut Cx) -> Res {
             for b in (a + 1)..dials.len() {
                 let (da, db) = (&dials[a], &dials[b]);
                 // each request was delivered while the other node's dial was its only unresolved one
-                if da.lane == db.lane && da.from != db.from && da.outcome.is_some() && db.outcome.is_some() && da.peer_open == vec![db.id] && db.peer_open == vec![da.id] && !da.callee_accepting && !db.callee_accepting {
+                if da.lane == db.lane && da.from != db.from && da.outcome.is_some() && db.outcome.is_some() && da.peer_open == vec![db.id] && db.peer_open == vec![da.id] && !da.callee_accepting && !db.callee_accepting && da.callee_synced && db.callee_synced {
                     let allows = [da, db].iter().filter(|d| matches!(d.outcome, Some(AcceptOutcome::Allow))).count();
                     if allows != 1 {
                         return Err(Violation::new(if allows == 0 { "tiebreak/none-accepted" } else { "tiebreak/both-accepted" }, format!("nodes dialed each other simultaneously (dials {a} and {b}); {allows} of the two requests were accepted")));
